@@ -18,6 +18,7 @@ func TestC19(t *testing.T) {
 		"for ordinary enums; zero, every defined flag, the OR of all, pairs and N random combinations of defined flags for bitmask enums: UnmarshalText(MarshalText(v)) == v, names rendered as the " +
 		"statement says, String() agrees; rejection of texts that are neither a name, a combination nor a number. distinct = enum types; evaluations = values round-tripped + texts rejected")
 	rep.RuleAdd("Rounds 12-15: merged bitmask enums (extension with and without the attribute, lower flags, non-ascending order), link-mode MAV_MODE_FLAG extension, lower-case entry names read through the enum's own parser.")
+	rep.RuleAdd("Rounds 16-17: overlapping multi-bit flags; an ordinary enum whose extension carries the bitmask attribute.")
 	rep.Assume("values >= 2^63 of ordinary enums may render as negative decimals as long as they parse back (observation, not violation)")
 	seed := vh.Seed()
 	nRandom := vh.Pick(200, 10000)
